@@ -135,6 +135,59 @@ fn alpha_sweep(cfg: &Cfg) -> Vec<Op> {
     v
 }
 
+/// a very wide, short screen as well: counts and extents beyond 255 columns
+fn wide_cfgs(tier: Tier) -> Vec<Cfg> {
+    let mut v = super::sweep::wide_cfgs(tier);
+    v.push(Cfg::new(300, 3, None));
+    v
+}
+
+static SYS_RESIZE: LockStep = LockStep { property: "C07", probes: false, seed: None };
+
+/// erasing after the screen changed its size: blanks carry the current pen in the columns
+/// and rows the resize added, too (a small alphabet, deeper; widths around a multiple of 8)
+fn alpha_resize(cfg: &Cfg) -> Vec<Op> {
+    let mut v = vec![
+        c(sgr1(44)),
+        c(sgr1(0)),
+        c(Ed(Some(2))),
+        c(Ed(None)),
+        c(Ed(Some(1))),
+        c(El(Some(2))),
+        c(Ech(Some(99))),
+        c(Cup(Some(2), Some(2))),
+        c(Cup(None, None)),
+        t("ab"),
+        c(Il(None)),
+        c(Su(None)),
+    ];
+    v.push(Op::resize(cfg.cols + 1, cfg.rows));
+    v.push(Op::resize(cfg.cols + 9, cfg.rows + 1));
+    v.push(Op::resize(cfg.cols.max(2) - 1, cfg.rows));
+    v.push(Op::resize(cfg.cols, cfg.rows));
+    v
+}
+
+fn resize_part(tier: Tier) -> Part<'static, LockStep> {
+    Part {
+        name: "edit-after-resize-lockstep",
+        sys: &SYS_RESIZE,
+        cfgs: match tier {
+            Tier::Quick => cfgs(&[(8, 2), (3, 2)], &[None]),
+            Tier::Thorough => cfgs(&[(8, 2), (3, 2), (7, 3), (16, 2), (15, 2)], &[None]),
+        },
+        alphabet: &alpha_resize,
+        depth: tier.pick(4, 5),
+        seconds: tier.pick(15.0, 1800.0),
+        validated: true,
+        nontrivial: Some("lockstep_transitions"),
+    }
+}
+
+fn alpha_wide(cfg: &Cfg) -> Vec<Op> {
+    super::sweep::layered(super::sweep::wide_placements(cfg), super::sweep::wide_edit_funcs(cfg))
+}
+
 pub fn run(ctx: &Ctx) -> Report {
     let mut rep = Report::new();
     let (a, b) = parts!(ctx.tier, &SYS, &SYS_BLANK);
@@ -142,6 +195,8 @@ pub fn run(ctx: &Ctx) -> Report {
     run_part(ctx, &mut rep, &b);
     run_part(ctx, &mut rep, &medium_part(ctx.tier));
     run_part(ctx, &mut rep, &super::sweep::sweep_part("edit-large-screen-parameter-sweep", &SYS_SWEEP, &alpha_sweep, ctx.tier));
+    run_part(ctx, &mut rep, &super::sweep::wide_part_on("edit-realistic-screen-parameter-sweep", &SYS_SWEEP, &alpha_wide, wide_cfgs(ctx.tier), ctx.tier));
+    run_part(ctx, &mut rep, &resize_part(ctx.tier));
     rep.rule = "lock-step BFS of (real Vt, reference terminal) from a screen completely filled with distinct letters (all rows soft-wrapped) and from a blank screen: ED/EL x selectors {default,0,1,2}, ECH/ICH/DCH x counts {default,0,1,2,w-1,w,w+1,65535}, DECALN, with the cursor on every cell and in the wrap-pending column, three pens; every cell of lines(), the cursor (exact, incl. the pending column) and the specified wrap marks are compared after every transition".into();
     rep.assumptions = vec!["erase extents are computed from the reported column (R2); marks after EL 1 / ED 1 on the cursor row, ICH and DECALN are adopted".into()];
     rep
@@ -153,6 +208,8 @@ pub fn replay(ctx: &Ctx, v: &Value) -> bool {
     match v["part"].as_str().unwrap_or("") {
         "edit-lockstep-medium-screen" => replay_part(ctx, &medium_part(tier), v),
         "edit-large-screen-parameter-sweep" => replay_part(ctx, &super::sweep::sweep_part("edit-large-screen-parameter-sweep", &SYS_SWEEP, &alpha_sweep, tier), v),
+        "edit-realistic-screen-parameter-sweep" => replay_part(ctx, &super::sweep::wide_part_on("edit-realistic-screen-parameter-sweep", &SYS_SWEEP, &alpha_wide, wide_cfgs(tier), tier), v),
+        "edit-after-resize-lockstep" => replay_part(ctx, &resize_part(tier), v),
         "edit-lockstep-filled-screen" => replay_part(ctx, &a, v),
         _ => replay_part(ctx, &b, v),
     }
